@@ -10,7 +10,7 @@ from reactivex.internal.exceptions import SequenceContainsNoElementsError
 
 from .. import registry as R
 from ..common import UnitResult, case_rng, chunks, show
-from ..single import SUB_AT, cut_after_terminal, make_input, match_expected, run_single, show_timed
+from ..single import SUB_AT, cut_after_terminal, make_input, match_expected, run_single, run_twice, show_timed
 from ..vlab import SrcErr, gen_timeline, gen_value, show_timeline
 from . import _c06_seqeq as SQ
 
@@ -40,7 +40,7 @@ OPS = ["reduce", "reduce_seed", "scan", "scan_seed", "count", "count_pred", "sum
        "all", "some", "some_pred", "contains", "contains_cmp", "is_empty",
        "sequence_equal_obs", "sequence_equal_obs_cmp", "sequence_equal_iter", "sequence_equal_iter_cmp",
        "sequence_equal_list", "sequence_equal_list_cmp"]
-REQUIRED = {"set:ops": len(OPS),
+REQUIRED = {"set:ops": len(OPS), "second_subscriptions_checked": {"quick": 1500, "thorough": 40000},
             "cases_with_falsy_input": {"quick": 3000, "thorough": 70000},
             "empty_input_error_expected": {"quick": 400, "thorough": 9000},
             "single_second_element_error_expected": {"quick": 200, "thorough": 5000},
@@ -460,6 +460,19 @@ def run_case(seed: int, idx: int, res: UnitResult) -> None:
     if why is not None:
         res.violation("C06:%s" % case["op"], {"why": why, "case": desc, "expected": show_alts(alts), "observed": show_timed(actual)},
                       {"seed": seed, "idx": idx})
+    if why is None and not case["hot"] and r.random() < 0.4:
+        # the same observable object subscribed again over a source that yields DIFFERENT data to its second subscription
+        case2 = gen_case(r, idx)
+        if case2["op"] == case["op"]:
+            tl2 = case2["tl"]
+            lab2, o1, o2, t2 = run_twice(lambda lab, s: s.pipe(build(case)), list(case["tl"]), tl2)
+            alts2 = model(case, [(t2 + t, k, v) for (t, k, v) in tl2], {})
+            res.count("second_subscriptions_checked")
+            why2, _ = check(alts2, o2.timed())
+            if why2 is not None:
+                res.violation("C06:%s:second-subscription" % case["op"], {"why": why2, "case": desc, "second_timeline": [[t, k, show(v)] for (t, k, v) in tl2],
+                                                                          "expected": show_alts(alts2), "observed": show_timed(o2.timed())},
+                              {"seed": seed, "idx": idx})
 
 
 def run_unit(unit: dict, res: UnitResult) -> None:
